@@ -245,3 +245,18 @@ PROPS['C07'] = dict(
     technique='property-based testing (rapidcheck): differential against an independent point-in-polygon oracle over an independently enumerated candidate set; legacy vs experimental',
     assumptions=['polygons span < pi in longitude and contain no pole (by construction)'],
 )
+
+PROPS['C15'] = dict(
+    src='props/C15.cpp', variants=['fast', 'asan'], level='exploration',
+    rule=('well-formed polygons as in C07 (narrower than 180 degrees; with holes that contain whole cells, holes smaller than a cell inside one cell, polygons smaller than a cell, needles, transmeridian, pentagon / icosahedron-edge / '
+          'coarse-ancestor locations) x all 16 res x the four modes x every candidate cell near the polygon; invalid flag words. '
+          'non-trivial = at least one cell with a decided overlap witness and one decided disjoint cell; distinct by polygon + res'),
+    quick=dict(cases={'fast': 5_000, 'asan': 400}),
+    thorough=dict(cases={'fast': 150_000, 'asan': 8_000}),
+    level_text=('sandwich oracle in binary128 with a 1e-9 rad margin plus the chord/great-circle bulge of each cell edge: FULL only if centre and vertices are inside, FULL if the cell is wholly interior, OVERLAPPING if a decided witness exists '
+                '(centre / cell vertex / polygon vertex inside the other shape, robustly crossing edges) and never if the shapes are separated; exact nesting FULL<=CENTER<=OVERLAPPING<=OVERLAPPING_BBOX, no duplicates, size bound with exactly sized guarded buffers, '
+                'E_MEMORY_BOUNDS at capacity count-1 and 0, E_OPTION_INVALID for invalid flags'),
+    level_note='trusted: planar lat/lng reading in the frame made continuous along the outer loop; claims are made only where chord and great-circle readings of the cell agree; pole cells and frame-ambiguous cells are not judged',
+    technique='property-based testing (rapidcheck): necessary/sufficient-condition (sandwich) oracle per candidate cell + metamorphic nesting relation between modes',
+    assumptions=['polygons narrower than 180 degrees (the wide ones are C07 known findings)'],
+)
